@@ -64,7 +64,27 @@ class FrameObj(Opaque):
         if name == "pop":
             self.popped.append(args[0])
             return SeriesObj(self, args[0])
+        if name == "copy":
+            c = FrameObj(self.path, self.kwargs)
+            c.popped, c.index, c.copy_of = list(self.popped), self.index, self
+            return c
         raise Unsupported("DataFrame." + name)
+
+
+class PathObj(Opaque):
+    """pathlib.Path(p): only what identifies the file matters - str() gives the path back, resolve() / absolute() /
+    expanduser() keep denoting the same file"""
+    type_name = "Path"
+
+    def __init__(self, p):
+        self.p = p
+
+    def call_method(self, itp, name, args, kwargs):
+        if name in ("resolve", "absolute", "expanduser"):
+            return self
+        if name == "__str__":
+            return self.p
+        raise Unsupported("Path." + name)
 
 
 def install(reg):
@@ -83,8 +103,10 @@ def install(reg):
         return ("figure", ax)
     reg.register("matplotlib.pyplot.subplots", Builtin("plt.subplots", subplots))
 
+    reg.register("pathlib.Path", Builtin("pathlib.Path", lambda itp, a, k: PathObj(a[0].p if isinstance(a[0], PathObj) else a[0])))
+
     def read_csv(itp, a, k):
-        f = FrameObj(a[0], dict(k))
+        f = FrameObj(a[0].p if isinstance(a[0], PathObj) else a[0], dict(k))
         itp.cx.ghost.setdefault("read_csv", []).append(f)
         itp.cx.trusted.add("pandas.read_csv returns every data row of the file, in order")
         return f
